@@ -59,7 +59,11 @@ def prepare(ctx):
     l1 = cbuild.shared_c(V1, name="libt.so", link=["-Wl,-soname,libt.so"])
     l2 = cbuild.shared_c(V2, name="libt.so", link=["-Wl,-soname,libt.so"])
     app = cbuild.compile_units([("app.c", APP, ["-g"])], link_flags=["-L" + os.path.dirname(l1), "-lt"], out_name="app", kind="exe")
-    _bins = (l1, l2, app)
+    # the same pair without debug info: added / removed / changed *symbols* exercise the symbol-only evaluators
+    # (suppresses_function_symbol, suppresses_variable_symbol) that the pair with debug info never reaches
+    n1 = cbuild.shared_c(V1, flags=(), name="libt.so", link=["-Wl,-soname,libt.so"])
+    n2 = cbuild.shared_c(V2, flags=(), name="libt.so", link=["-Wl,-soname,libt.so"])
+    _bins = (l1, l2, app, n1, n2)
 
 
 PROBE_ENV = {"ASAN_OPTIONS": "detect_leaks=0:exitcode=99:handle_segv=0:handle_abort=0:allow_user_segv_handler=1",
@@ -79,7 +83,8 @@ def stages(ctx):
     core_singles = [d for d in singles if d["props"][0][0] in inigen.CORE_KEYS and d["section"] != "suppress_bogus"]
     st = [("text<=3,docs-single", _text(3, -1, range(6)) + [{"mode": "docs", "docs": c} for c in _chunks(singles, 500)]),
           ("text<=5", _text(5, 3, range(6))),
-          ("tool-core-singles", [{"mode": "tool", "doc": d} for d in core_singles])]
+          ("tool-core-singles", [{"mode": "tool", "doc": d} for d in core_singles]),
+          ("tool-all-singles-symbol-only-pair", [{"mode": "tool", "doc": d, "nodebug": True} for d in singles if d["section"] != "suppress_bogus"])]
     if not ctx.quick:
         pairs = list(inigen.pair_docs())
         rest = [d for d in singles if d not in core_singles]
@@ -128,11 +133,14 @@ def evaluate(ctx, e):
     wl = os.path.join(d, "x.whitelist")
     with open(wl, "wb") as f:
         f.write(text.replace("[" + doc["section"] + "]", "[abi_whitelist]").encode("latin-1"))
-    l1, l2, app = _bins
-    runs = [("abidiff", ["--suppressions", sp, l1, l2]),
-            ("abidw", ["--suppressions", sp, l1]),
-            ("abicompat", ["--suppressions", sp, app, l1, l2]),
-            ("abidiff", ["--kmi-whitelist", wl, l1, l2])]
+    l1, l2, app, n1, n2 = _bins
+    if e.get("nodebug"):
+        runs = [("abidiff", ["--suppressions", sp, n1, n2]), ("abidiff", ["--suppressions", sp, n2, n1])]
+    else:
+      runs = [("abidiff", ["--suppressions", sp, l1, l2]),
+              ("abidw", ["--suppressions", sp, l1]),
+              ("abicompat", ["--suppressions", sp, app, l1, l2]),
+              ("abidiff", ["--kmi-whitelist", wl, l1, l2])]
     fails, outs = [], {}
     cls_in = "%s/%s/%s" % (doc["section"], "+".join(k for k, _ in doc["props"]), doc["shape"])
     for name, args in runs:
